@@ -560,6 +560,8 @@ fn threads_case(case: u64, rng: &mut Rng, st: &mut Stats, rounds: usize) {
 }
 
 fn main() {
+    // tasks are polled by hand in this binary: see vcore::run::use_plain_block_on
+    vcore::run::use_plain_block_on();
     let mut run = Run::from_args(
         "C04",
         "exploration",
